@@ -1326,6 +1326,9 @@ func init() {
 	comp.Register(&comp.Component{
 		Name: "keyed", Model: "keyed", Gen: gen, Exec: exec,
 		Corpus: [][]string{
+			// C07-s3/b3: the retry timer of a record that ResetRoutine has replaced fires and must do nothing
+			{"config plain nodelay retry 50", "setctx 1 norestart", "setkey 1 start", "settle", "retk 1 err", "settle", "reset 1", "advance", "getkeysdata", "probeall", "retk 1 ok", "advance", "getkeysdata"},
+			{"config plain delay retry 2", "setctx 1 norestart", "setkey 1 start", "setkey 2 start", "settle", "retk 2 err", "settle", "resetall", "advance", "probeall", "retk 2 err", "advance", "getkeysdata"},
 			// the root context is cancelled while installed: SyncKeys / ResetRoutine / RestartRoutine forget it
 			// (nothing is started, RestartRoutine reports false); SetKey(start) starts with the cancelled context
 			{"config plain nodelay noretry", "setctx 1 norestart", "setkey 1 start", "settle", "cancelroot", "probeall", "restart 1", "setkey 2 start", "getkeys", "retk 1 cancel", "advance", "setctx 1 norestart", "advance", "probeall"},
